@@ -1213,11 +1213,16 @@ where
         if safe.active_blob.is_none() {
             Err(Error::active_blob_doesnt_exist().into())
         } else {
+            // Sync while the blob still sits in the active slot: neither a failed fsync
+            // nor a dropped future may lose it
+            if let Some(ablob) = safe.active_blob.as_ref() {
+                ablob.read().await.fsyncdata().await?;
+            }
+            let blobs = safe.blobs.clone();
+            let mut blobs = blobs.write().await;
             // always true
             if let Some(ablob) = safe.active_blob.take() {
-                let ablob = (*ablob).into_inner();
-                ablob.fsyncdata().await?;
-                safe.blobs.write().await.push(ablob).await;
+                blobs.push((*ablob).into_inner()).await;
             }
             Ok(())
         }
